@@ -54,6 +54,7 @@ Emit ==
 \* ---- pools and documents ------------------------------------------------
 Pool == CASE PoolName = "C04" -> PoolC04
           [] PoolName = "C04ops" -> PoolC04ops
+          [] PoolName = "C04fn" -> PoolC04fn
           [] PoolName = "C12" -> PoolC12
           [] PoolName = "C12big" -> PoolC12big
           [] PoolName = "C12all" -> PoolC12 \cup PoolC04
